@@ -490,3 +490,49 @@ Proof. intros Hc HF Hb H. exact (proj1 (fp_unique N p FT bs v f rest Hc HF Hb H)
 Lemma field_dec_valid {K} (C : Codec K) valid : CodecOK C valid ->
   forall bs x rest, bytes_ok bs -> c_decp C bs = Ok (x, rest) -> valid x.
 Proof. intros COK bs x rest Hb H. exact (proj1 (plain_unique C valid COK bs x rest Hb H)). Qed.
+
+(* ---------------- PairingOutput: Valid::check accepts exactly x^r = 1 ---------------- *)
+Section PoCheck.
+  Context {K : Type} (F : Fops K) (C : Codec K).
+  Variable r : Z.
+
+  Theorem po_check_iff x : po_check F r x = Ok tt <-> feqb F (fpow F x r) (f1 F) = true.
+  Proof. unfold po_check. destruct (feqb F (fpow F x r) (f1 F)); split; congruence. Qed.
+
+  Theorem po_check_reject_iff x : po_check F r x = Err E_InvalidData <-> feqb F (fpow F x r) (f1 F) = false.
+  Proof. unfold po_check. destruct (feqb F (fpow F x r) (f1 F)); split; congruence. Qed.
+
+  Theorem po_check_nopanic x : po_check F r x <> Panic.
+  Proof. unfold po_check. destruct (feqb F (fpow F x r) (f1 F)); congruence. Qed.
+
+  Theorem po_dec_accepts_iff bs x rest :
+    po_dec F C r bs true = Ok (x, rest) <->
+    c_decp C bs = Ok (x, rest) /\ feqb F (fpow F x r) (f1 F) = true.
+  Proof.
+    unfold po_dec. destruct (c_decp C bs) as [[x' rest']| e |]; cbn [bind fst].
+    - unfold po_check. destruct (feqb F (fpow F x' r) (f1 F)) eqn:E; cbn [bind].
+      + split; [intros H; inversion H; subst; auto | intros [H _]; exact H].
+      + split; [congruence | intros [H E']; inversion H; subst; congruence].
+    - split; [congruence | intros [H _]; congruence].
+    - split; [congruence | intros [H _]; congruence].
+  Qed.
+
+  (* without validation nothing is tested *)
+  Theorem po_dec_unchecked bs : po_dec F C r bs false = c_decp C bs.
+  Proof. unfold po_dec. destruct (c_decp C bs) as [[x' rest']| e |]; reflexivity. Qed.
+End PoCheck.
+
+(* x^r of the model is the r-fold product x * x * ... * x (for an associative multiplication) *)
+Lemma fpow_pos_gmul {K} (F : Fops K) a e : fpow_pos F a e = gmul_pos (fmul F) e a.
+Proof. induction e as [e IH|e IH|]; cbn [fpow_pos gmul_pos]; rewrite ?IH; reflexivity. Qed.
+
+Theorem po_check_iff_product {K} (F : Fops K) :
+  (forall a b c, fmul F a (fmul F b c) = fmul F (fmul F a b) c) ->
+  (forall a b, feqb F a b = true <-> a = b) ->
+  forall r x, 0 < r ->
+  (po_check F r x = Ok tt <-> nsum1 (fmul F) (Z.to_nat r - 1) x = f1 F).
+Proof.
+  intros Ha He r x Hr. rewrite po_check_iff, He.
+  destruct r as [|r'|r']; try lia. cbn [fpow].
+  rewrite fpow_pos_gmul, (gmul_pos_spec (fmul F) Ha). rewrite Z2Nat.inj_pos. reflexivity.
+Qed.
